@@ -58,6 +58,11 @@ def known_core(case, d):
 
 
 # byte strings that are not text: truncated and stray UTF-8 sequences at every distance from the end (held as latin-1 str, like every text here)
+# texts with characters of two, three and four bytes (UTF-8), a byte order mark, stray bytes: sizes, offsets and loop guards are in BYTES
+E2, E3, E4, BOM = "\xc3\xa9", "\xe2\x82\xac", "\xf0\x9f\x98\x80", "\xef\xbb\xbf"
+MB_TEXTS = [E2, E2 + "a", E2 + "ac", E2 + "ab", "a" + E2 + "bc", E2 + "a" + E2 + "a", E2 + E2 + "a" + E2, E3 + "42", E2 + "ab-ab", E2 + "\n", E2 + "ay", E4 + "a", "ab!\xff\xc3\xbc!abc!",
+            BOM + "abc abc", BOM + "a", "\xffa", "a" + E3 + E2 + "a", "abcd"]
+
 HOSTILE_TAILS = ["caf\xc3\xa9", "caf\xc3", "ab\xe2\x82\xac", "ab\xe2\x82", "ab\xe2", "\xf0\x9f\x98\x80x", "\xf0\x9f\x98", "\xf0\x9f", "\xf0", "\xff", "b\xff", "\xffab",
                  "a\xa9", "\xc3z", "a\xc3bc", "\xc3\xa9\xc3", "a\x80\x80", "\xe2\x82\xac\xe2\x82", "1\xc3", "a\n\xc3", " \xe2\x82"]
 
